@@ -138,7 +138,9 @@ def rule_incongruence_ploidy(ctx):
                      ('mchap.calling.classes.GenotypeAllelesMultiTrace.replicate_incongruence', 'call')):
         f = ctx.func(fq)
         r = ctx.recon(fq)
-        cmps = [x for ev in r.events for d in ev.data if isinstance(d, tuple) for x in walk(d) if x[0] == 'cmp' and x[1] in ('Gt', 'Lt')
+        # the comparison may sit in the returned value (accumulator form) or in the path conditions (early-return form)
+        places = [d for ev in r.events for d in ev.data if isinstance(d, tuple)] + [c for ev in r.events for c, _ in ev.conds if isinstance(c, tuple)]
+        cmps = [x for d in places for x in walk(d) if x[0] == 'cmp' and x[1] in ('Gt', 'Lt', 'GtE', 'LtE')
                 and any(y[0] == 'call' and y[1] == 'len' for y in walk(x))]
         cands = []
         for x in cmps:
